@@ -398,7 +398,7 @@ PLANS["C08"] = {
             "run in a 1-thread pool and in pools of 2..32 threads (and more threads than rows/columns) with seeded spin/yield jitter at band "
             "starts (H4 hook), results compared bit for bit; strips: 1xN, Nx1, 2xN images with N in {255..257, 4095..4097, 65535..65537, 70000, "
             "92681, 92682, 131072, 300000} in pools of 2, 7, 32 threads; parts: the band-count functions on 10^6 size pairs incl. 2^k, 2^k+-1 up "
-            "to 2^32-1 (no panic, parts <= extent); containers: cropped, nested and dynamic source/destination views in pools of 2/3/4/8 threads "
+            "to 2^32-1 (no panic); containers: cropped, nested and dynamic source/destination views in pools of 2/3/4/8 threads "
             "against plain images in a 1-thread pool (the C13 workload); thorough adds ThreadSanitizer; Miri (Tree Borrows + race detector) runs multi-band row "
             "scenarios (must be clean) and column scenarios (D13b known finding) and column scenarios with the borrow tracker off (must be "
             "clean: no real access overlaps); non-trivial = a run that was split into > 1 band; distinct = distinct descriptor",
